@@ -270,9 +270,9 @@ func (h *vHarness) probeTCP(m *vMetrics, addr string, hello []byte) (bool, int, 
 	c.Write(hello)
 	c.(*net.TCPConn).CloseWrite()
 	var rec *vTCPRec
-	ok := m.waitFor(5*time.Second, func() bool { rec = m.tcp[me]; return rec != nil && rec.closed })
+	ok := m.waitFor(3*time.Second, func() bool { rec = m.tcp[me]; return rec != nil && rec.closed })
 	if !ok {
-		return true, 0, "", fmt.Errorf("no AddClosed for probe connection %s within 5s", me)
+		return true, 0, "", fmt.Errorf("no AddClosed for probe connection %s within 3s", me)
 	}
 	m.mu.Lock()
 	defer m.mu.Unlock()
@@ -343,6 +343,7 @@ func vRunners() int {
 func (h *vHarness) probe(m *vMetrics, tag string) {
 	serving := [][]interface{}{}
 	listening := [][]interface{}{}
+	unhandled := [][]interface{}{}
 	problems := []string{}
 	for a := 1; a <= len(h.u.ports); a++ {
 		addr := h.u.dialAddr(a)
@@ -351,6 +352,12 @@ func (h *vHarness) probe(m *vMetrics, tag string) {
 		for cs := 1; cs <= len(vClassKey); cs++ {
 			k := vKeys[vClassKey[cs]]
 			ln, id, _, err := h.probeTCP(m, addr, vClientHello(k, "127.0.0.1:9", nil))
+			if err != nil && ln && strings.Contains(err.Error(), "no AddClosed") {
+				// the kernel accepted the connection but the server never handled it: an observation, not a harness problem
+				unhandled = append(unhandled, []interface{}{"tcp", a})
+				tcpListening = true
+				break
+			}
 			if err != nil {
 				problems = append(problems, err.Error())
 			}
@@ -370,6 +377,11 @@ func (h *vHarness) probe(m *vMetrics, tag string) {
 			listening = append(listening, []interface{}{"udp", a})
 			for cs := 1; cs <= len(vClassKey); cs++ {
 				id, err := h.probeUDP(m, addr, vKeys[vClassKey[cs]])
+				if err != nil && strings.Contains(err.Error(), "was not processed") {
+					// somebody holds the address but nobody reads from it: an observation about the server
+					unhandled = append(unhandled, []interface{}{"udp", a})
+					break
+				}
 				if err != nil {
 					problems = append(problems, err.Error())
 					continue
@@ -386,7 +398,7 @@ func (h *vHarness) probe(m *vMetrics, tag string) {
 		time.Sleep(2 * time.Millisecond)
 		runners = vRunners()
 	}
-	h.emit(map[string]any{"ev": "Probe", "tag": tag, "serving": serving, "listening": listening, "runners": runners, "problems": problems})
+	h.emit(map[string]any{"ev": "Probe", "tag": tag, "serving": serving, "listening": listening, "runners": runners, "problems": problems, "unhandled": unhandled})
 }
 
 // vCfgJSON: the configuration as the trace specification reads it (no JSON null for empty sequences)
